@@ -13,8 +13,8 @@ VARIANTS = [("gzip", 0, 1), ("gzip", BIG, 9), ("gzip", 150, 1), ("zstd", 0, 0), 
 CHUNK = 4
 
 
-META_A = {"mode": 0o755, "uid": 0, "gid": 0, "mtime": 0}
-META_B = {"mode": 0o700, "uid": 1000, "gid": 1000, "mtime": 1700000000}
+META_A = {"mode": 0o755, "uid": 0, "gid": 0, "mtime": "0"}
+META_B = {"mode": 0o700, "uid": 1000, "gid": 1000, "mtime": "1700000000"}
 
 
 def f(name, size, meta=META_A):
@@ -29,8 +29,9 @@ SPECIAL_NAMES = ("sub/stargz.index.json", "sub/.prefetch.landmark", "sub/.no.pre
 
 
 def is_special(tar):
-    """the special families: a repeated name whose entries differ in metadata, or a file named like a reserved entry"""
-    return any(e["meta"] != META_A or e["name"] in SPECIAL_NAMES for e in tar)
+    """the special families: a repeated name whose entries differ in metadata, a file named like a reserved entry,
+    an entry with an mtime before the epoch / in the year 3000, a PAX global extended header"""
+    return any(e["meta"] != META_A or e["name"] in SPECIAL_NAMES or e["type"] == "xglobal" for e in tar)
 
 
 # a few inputs beyond the TLC bound (5 entries; sizes 0, 1, chunk-1, chunk, chunk+1, 2*chunk+1; a directory; a duplicate)
@@ -120,7 +121,8 @@ def check(run):
             ("Writer_mc_build.cfg", "KeepChunkSize", ["TocAddressesRightBytes", "ChunksTileFile"]),
             ("Writer_mc_build.cfg", "DivideKeepsAll", ["EntriesPreserved"]),
             ("Writer_mc_build.cfg", "KeepLastDup", ["EntriesPreserved"]),
-            ("Writer_mc_build.cfg", "ReservedByFullName", ["EntriesPreserved"])):
+            ("Writer_mc_build.cfg", "ReservedByFullName", ["EntriesPreserved"]),
+            ("Writer_mc_build.cfg", "RefuseUnknownType", ["LosslessIdentity", "EntriesPreserved"])):
         ov = dict(small) if cfg == "Writer_mc_build.cfg" and guard != "DivideKeepsAll" else {}
         ov[guard] = "FALSE"
         run.tlc_negctl("Writer", cfg, ov, expect, workers=4, timeout=900)
@@ -140,7 +142,7 @@ def check(run):
             if mode != "build" and len(set(names)) != len(names):
                 continue
             gen.append({"input": t, "mode": mode, "workers": w})
-    budget = 4500 if thorough else 3000   # thorough runs the builds under -race (about 5x slower per build)
+    budget = 4500 if thorough else 2600   # thorough runs the builds under -race (about 5x slower per build)
     allc = []
     for g in gen:
         tar = [{"name": e["name"], "type": e["type"], "link": e["link"], "size": e["size"], "meta": e["meta"]} for e in g["input"]]
@@ -149,12 +151,12 @@ def check(run):
                          "level": lvl, "gzinput": False, "vi": vi})
     # deterministic part, replayed in EVERY run: all inputs of <= 1 entry under every variant, and the special families
     # (repeated names with other metadata; files named like reserved entries) with <= 2 entries (sizes 0 / 5 only, to keep
-    # the list short) in every mode under gzip/min-chunk 0 and zstd/min-chunk 150
+    # the list short) in every mode under gzip/min-chunk 0 and (Writer, lossless, Build with 2 workers) zstd/min-chunk 150
     def fixed_part(c):
         if len(c["tar"]) <= 1:
             return True
-        return (is_special(c["tar"]) and len(c["tar"]) <= 2 and c["vi"] in (0, 4)
-                and all(e["size"] in (0, 3, 5) for e in c["tar"]))
+        return (is_special(c["tar"]) and len(c["tar"]) <= 2 and all(e["size"] in (0, 1, 3, 5) for e in c["tar"])
+                and (c["vi"] == 0 or (c["vi"] == 4 and c["mode"] != "build") or (c["vi"] == 4 and c["workers"] == 2)))
     small_cases = [c for c in allc if fixed_part(c)]
     rest = [c for c in allc if not fixed_part(c)]
     run.rng.shuffle(rest)
@@ -174,7 +176,7 @@ def check(run):
     events = read_ndjson(out)
     if len(events) != len(cases):
         raise Inconclusive("driver recorded %d events for %d cases" % (len(events), len(cases)))
-    bad = [e for e in events if e["err"]]
+    bad = [e for e in events if e["err"] not in ("", "refused")]      # "refused": unsupported entry type, an outcome the model has
     for e in bad[:3]:
         if e["err"] == "unreadable":
             # the independent reader could not read the blob per docs/estargz.md: "valid stream of its compression format ... parsed by the documented rules"
@@ -186,7 +188,7 @@ def check(run):
                           + e["errtext"], {"event": brief(e)})
         else:
             run.inconclusive.append("builder returned an error for a valid input (%s): %s" % (where(e), e["errtext"]))
-    events = [e for e in events if not e["err"]]
+    events = [e for e in events if e["err"] in ("", "refused")]
     ok = 0
     step = 1500
     for k in range(0, len(events), step):
